@@ -589,10 +589,13 @@ func (g *Gen) Program() []core.Op {
 				if g.R.Chance(1, 3) {
 					o.FailAt = 1 + g.R.Intn(3)
 				}
-				if g.R.Chance(1, 4) {
+				if g.R.Chance(1, 2) {
 					o.Limit = int64(core.Pick(g.R, []int{1, 100, 300, 449, 450, 451}))
-					if g.flushRow > 0 && g.R.Chance(1, 2) {
-						o.Limit = int64(g.flushRow + g.R.Intn(4) - 1)
+					if g.flushRow > 0 && g.R.Chance(2, 3) {
+						o.Limit = int64(g.flushRow + g.R.Intn(3))
+						if g.R.Chance(1, 2) {
+							o.Keys, o.Ranges = nil, nil // the whole table: the count below is about that scan
+						}
 					}
 				}
 				prog = append(prog, o)
@@ -642,9 +645,11 @@ func (g *Gen) Program() []core.Op {
 			prog = append(prog, o)
 		case 8:
 			parent, id := core.Pick(g.R, Parents), core.Pick(g.R, g.ids())
+			noFams := g.R.Chance(1, 6)
 			o := &Op{Kind: "create", Parent: parent, ID: id}
 			for _, f := range Fams {
-				if g.R.Chance(4, 5) {
+				// (one table in six starts without any family: an empty definition is a definition too)
+				if g.R.Chance(4, 5) && !noFams {
 					o.Fams = append(o.Fams, FamDef{Name: f, Rule: g.Rule(1)})
 				}
 			}
